@@ -306,11 +306,13 @@ def _f1_short(cfg, sz):
     if cfg.get('dim') == 1 or 'N' in sz and 'H' not in sz:
         pairs.append((sz.get('N', sz.get('W')), 2 * sz.get('Lc2', sz.get('L2', 1))))
     else:
-        lr = sz.get('Lr2') if cfg.get('waveform') == 'tuple4' else sz.get('Lc2', sz.get('L2', 1))
+        lr = sz.get('Lr2') if (cfg.get('waveform') == 'tuple4' or 'cls' in cfg) else sz.get('Lc2', sz.get('L2', 1))
         pairs += [(sz.get('H'), 2 * sz.get('Lc2', sz.get('L2', 1))), (sz.get('W'), 2 * (lr or 1))]
     for n, L in pairs:
         if n is None:
             continue
+        if cfg.get('cls', '').startswith('SFB'):
+            n = 2 * n
         for j in range(J):
             if n + n % 2 < L:
                 return True
@@ -318,7 +320,16 @@ def _f1_short(cfg, sz):
     return False
 
 
-PREDS = {'f1_short': _f1_short}
+def _f2_region(cfg, sz):
+    m = cfg.get('mode')
+    if m in ('symmetric', 'reflect', 'periodic'):
+        return True
+    if m in ('per', 'periodization') and cfg.get('cls', '').startswith('AFB'):
+        return any(sz.get(k, 0) % 2 == 1 for k in ('N', 'H', 'W'))
+    return False
+
+
+PREDS = {'f1_short': _f1_short, 'f2_region': _f2_region}
 
 
 def _in_known(fl, findings):
